@@ -119,7 +119,10 @@ Inductive expr :=
 | EXor (a b : expr)
 | EAdd (a b : expr)
 | EEq (a b : expr)
-| ESlice (a : expr) (off w : nat).   (* a(off, w_b)  /  a[off] when w = 1 *)
+| ESlice (a : expr) (off w : nat)    (* a(off, w_b)  /  a[off] when w = 1 *)
+| EDynSlice (a idx : expr) (idxw w : nat)      (* a(idx, w_b)         read through BitVectorSliceDynamic::readPort *)
+| EDynBit (a idx : expr) (idxw pw : nat)       (* a[idx], |a| = pw *)
+| EDynPart (a idx : expr) (parts pw : nat).    (* a.part(parts, idx), |a| = pw *)
 
 (* one level of an assignment target  x(..)(..)[..] = rhs *)
 Inductive sel :=
@@ -190,6 +193,12 @@ Fixpoint update {A} (x : sig) (a : A) (l : list (sig * A)) : list (sig * A) :=
 (* the last n elements: leaving a C++ block destroys the variables declared in it *)
 Definition lastn {A} (n : nat) (l : list A) : list A := skipn (length l - n) l.
 
+(* a dynamic read selects among the maxIdx+1 static positions with the index value AT THIS PROGRAM
+   POINT; index above maxIdx => undefined, undefined index => merge (the multiplexer's semantics) *)
+Definition dyn_read (av iv : bv) (prm : nat * nat * nat) : bv :=
+  let '(maxi, mul, w) := prm in
+  mux_sem iv (map (fun k => extract_sem av (k * mul) w) (seq 0 (S maxi))).
+
 Section WithInputs.
 Variable inp : list bv.                (* input pin valuation *)
 
@@ -205,6 +214,9 @@ Fixpoint eval_expr (E : env) (e : expr) : bv :=
   | EAdd a b => bv_add (eval_expr E a) (eval_expr E b)
   | EEq a b => bv_eq (eval_expr E a) (eval_expr E b)
   | ESlice a off w => extract_sem (eval_expr E a) off w
+  | EDynSlice a idx idxw w => dyn_read (eval_expr E a) (eval_expr E idx) (dyn_slice_params idxw w)
+  | EDynBit a idx idxw pw => dyn_read (eval_expr E a) (eval_expr E idx) (dyn_bit_params idxw pw)
+  | EDynPart a idx parts pw => dyn_read (eval_expr E a) (eval_expr E idx) (dyn_part_params parts pw)
   end.
 
 (* write [new] into the part of [cur] selected by the path.  A dynamic level selects among
@@ -385,6 +397,21 @@ Definition set_last (st : est) (l : option nid) : est :=
 (* DesignScope::createNode: append, the new node's index is the old length *)
 Definition emit (G : list gnode) (n : gnode) : nid * list gnode := (length G, G ++ [n]).
 
+(* BitVectorSliceDynamic::readPort: one Rewire(setExtract(k*mul, w)) per position, then the multiplexer *)
+Fixpoint emit_extracts (a : nid) (mul w : nat) (ks : list nat) (G : list gnode) : list nid * list gnode :=
+  match ks with
+  | [] => ([], G)
+  | k :: ks' =>
+      let (ex, G1) := emit G (NExtract a (k * mul) w) in
+      let (os, G2) := emit_extracts a mul w ks' G1 in
+      (ex :: os, G2)
+  end.
+
+Definition elab_dyn_read (na ni : nid) (prm : nat * nat * nat) (G : list gnode) : nid * list gnode :=
+  let '(maxi, mul, w) := prm in
+  let (opts, G1) := emit_extracts na mul w (seq 0 (S maxi)) G in
+  emit G1 (NMux ni opts).
+
 Fixpoint elab_expr (S : list (sig * sigrec)) (e : expr) (G : list gnode) : nid * list gnode :=
   match e with
   | EIn i => emit G (NIn i)
@@ -400,6 +427,16 @@ Fixpoint elab_expr (S : list (sig * sigrec)) (e : expr) (G : list gnode) : nid *
   | EAdd a b => let (na, G1) := elab_expr S a G in let (nb, G2) := elab_expr S b G1 in emit G2 (NAdd na nb)
   | EEq a b => let (na, G1) := elab_expr S a G in let (nb, G2) := elab_expr S b G1 in emit G2 (NEq na nb)
   | ESlice a off w => let (na, G1) := elab_expr S a G in emit G1 (NExtract na off w)
+  (* the index port is idx.readPort() when the alias is created: the index's value at this program point *)
+  | EDynSlice a idx idxw w =>
+      let (na, G1) := elab_expr S a G in let (ni, G2) := elab_expr S idx G1 in
+      elab_dyn_read na ni (dyn_slice_params idxw w) G2
+  | EDynBit a idx idxw pw =>
+      let (na, G1) := elab_expr S a G in let (ni, G2) := elab_expr S idx G1 in
+      elab_dyn_read na ni (dyn_bit_params idxw pw) G2
+  | EDynPart a idx parts pw =>
+      let (na, G1) := elab_expr S a G in let (ni, G2) := elab_expr S idx G1 in
+      elab_dyn_read na ni (dyn_part_params parts pw) G2
   end.
 
 (* an assignment target level after its index expression has been elaborated
